@@ -104,12 +104,118 @@ def gen_dist(rng, allowed, universe, dyadic, deterministic=False):
     return {"t": "dict", "items": items}
 
 
+# weights that do not sum to 1 (1 +- 1e-6, 2, 1/2) and probabilities next to 0 and 1 (2^-30, 1 - 2^-20);
+# every bisect boundary u = cum/total of these templates stays > 1e-9 away from the k/2^21 stream grid or is dyadic-exact
+BOUNDARY_WEIGHTS = [["1/2", "500001/1000000"], ["499999/1000000", "1/2"], ["1/4", "1/4", "500001/1000000"],
+                    ["1", "1"], ["1/4", "1/4"], ["1/1073741824", "1073741823/1073741824"],
+                    ["1048575/1048576", "1/1048576"], ["1/1073741824", "1/2", "536870911/1073741824"]]
+
+
+def _check_templates():
+    for ws in BOUNDARY_WEIGHTS:
+        tot = sum(F(w) for w in ws)
+        cum = F(0)
+        for w in ws[:-1]:
+            cum += F(w)
+            u = cum / tot
+            k = round(u * DEN)
+            d = abs(u - F(k, DEN))
+            dyadic = all(F(x).denominator & (F(x).denominator - 1) == 0 for x in ws)   # exact in doubles: any distance is safe
+            assert dyadic or d > F(1, 10 ** 9), ws
+
+
+_check_templates()
+
+
+def gen_boundary_dist(rng, allowed):
+    allowed = list(allowed)
+    cands = [ws for ws in BOUNDARY_WEIGHTS if len(ws) <= len(allowed)]
+    if not cands:
+        return None
+    ws = rng.choice(cands)
+    return {"t": "dict", "items": [[x, w] for x, w in zip(rng.sample(allowed, len(ws)), ws)]}
+
+
+def perturb_mdp(rng, m):
+    """parameter boundaries inside the MDP: a transition row with probabilities 2^-30 / 1-2^-20, rewards of
+    magnitude 1e3..1e6 (one sign only, so that no return is a small difference of large numbers)"""
+    m = copy.deepcopy(m)
+    feats = []
+    rows = [k for k, row in m["trans"].items() if not m["absorbing"][int(k.split(",")[0])]]
+    if rows and m["n"] >= 2 and rng.random() < .5:
+        k = rng.choice(rows)
+        d = gen_boundary_dist(rng, range(m["n"]))
+        if d:
+            s, a = k.split(",")
+            for ns, _ in m["trans"][k]:
+                m["reward"].pop("%s,%s,%d" % (s, a, ns), None)
+            m["trans"][k] = d["items"]
+            feats.append("boundary_row")
+    if m["reward"] and rng.random() < .5:
+        sign = -1 if F(m["gamma"]) == 1 else rng.choice([-1, 1])
+        for k in rng.sample(sorted(m["reward"]), min(2, len(m["reward"]))):
+            m["reward"][k] = str(sign * F(rng.choice([1000, 123456, 10 ** 6]) * 4 + rng.choice([0, 1, 3]), 4))
+        feats.append("big_rewards")
+    return m, feats
+
+
+LABEL_STYLES = ["str", "tuple", "float", "int_perm", "bool"]
+
+
+def gen_labels(rng, k, style):
+    """k distinct labels, one of them falsy, in an order that is not the sorted order"""
+    if style == "bool" and k > 2:
+        style = "str"
+    if style == "str":
+        pool = ["", "b", "a", "zz", "B", "c", "0", " "]
+    elif style == "tuple":
+        pool = [{"tuple": []}, {"tuple": [0]}, {"tuple": [1, 0]}, {"tuple": [0, 1]}, {"tuple": [0, 0]}, {"tuple": [2]},
+                {"tuple": ["x"]}, {"tuple": [{"tuple": []}]}]
+    elif style == "float":
+        pool = [0.0, 0.5, -1.5, 2.25, 1e-9, -0.0 + 3.0, 7.0, -2.0]
+    elif style == "bool":
+        pool = [False, True]
+    else:
+        pool = [0, 5, 3, -1, 2, 9, 1, 4]
+    labs = pool[:k]
+    rng.shuffle(labs)
+    return labs
+
+
+def gen_opts(rng, m, allow_global=False):
+    o = {}
+    if rng.random() < .4:
+        o["labels"] = {"states": gen_labels(rng, m["n"], rng.choice(LABEL_STYLES)),
+                       "actions": gen_labels(rng, m["nA"], rng.choice(LABEL_STYLES))}
+    if rng.random() < .3:
+        o["repr"] = "matrices"
+    if rng.random() < .3:
+        o["touch"] = True
+    if allow_global and rng.random() < .12:
+        o["use_global"] = True
+    return o
+
+
+def presented(m, opts):
+    """the MDP as the chosen constructor presents its distributions to the generator"""
+    if (opts or {}).get("repr") != "matrices":
+        return m
+    pm = dict(m)
+    pm["trans"] = {k: sorted([[ns, p] for ns, p in row if F(p) > 0]) for k, row in m["trans"].items()}
+    pm["init"] = sorted([[s, p] for s, p in m["init"] if F(p) > 0])
+    return pm
+
+
 def gen_policy(rng, m, dyadic, deterministic=False, kind=None):
     kind = kind or rng.choice(["functional", "tabular"])
     n, nA = m["n"], m["nA"]
     if kind == "functional":
-        return {"kind": "functional",
-                "dists": [gen_dist(rng, m["actions"][s], range(nA), dyadic, deterministic) for s in range(n)]}
+        dists = [gen_dist(rng, m["actions"][s], range(nA), dyadic, deterministic) for s in range(n)]
+        if not deterministic and not dyadic:
+            for s in range(n):
+                if rng.random() < .15:
+                    dists[s] = gen_boundary_dist(rng, m["actions"][s]) or dists[s]
+        return {"kind": "functional", "dists": dists}
     mat = []
     for s in range(n):
         av = m["actions"][s]
@@ -172,28 +278,70 @@ def gen_mdp_run(rng, tier):
     cap = gen_cap(rng)
     dyadic = rng.random() < .5
     m = gen_mdp_for(rng, tier, cap)
+    bfeats = []
+    if not dyadic and rng.random() < .25:
+        m, bfeats = perturb_mdp(rng, m)
     s0 = None if rng.random() < .5 else rng.randrange(m["n"])
     capn = 40 if cap in ("large", "default") else cap
-    return {"kind": "mdp_run", "mdp": m, "policy": gen_policy(rng, m, dyadic), "s0": s0, "cap": cap, "dyadic": dyadic,
-            "stream": gen_stream(rng, 2 * capn + 3, dyadic), "gstream": gen_stream(rng, 4, dyadic)}
+    opts = gen_opts(rng, m, allow_global=True)
+    c = {"kind": "mdp_run", "mdp": m, "policy": gen_policy(rng, m, dyadic), "s0": s0, "cap": cap, "dyadic": dyadic,
+         "opts": opts, "boundary": bfeats, "omit_s0": s0 is None and rng.random() < .5,
+         "use_global": bool(opts.get("use_global")),
+         "stream": gen_stream(rng, 2 * capn + 3, dyadic),
+         "gstream": gen_stream(rng, (2 * capn + 3) if opts.get("use_global") else 4, dyadic)}
+    if rng.random() < .3:
+        # the same policy object is run a second time: on the same MDP object, or on a second MDP object with the
+        # same labels and structure but other numbers
+        cap2 = rng.choice([0, 1, 2, 5, "large"])
+        capn2 = 40 if cap2 == "large" else cap2
+        m2 = None
+        if rng.random() < .5:
+            m2 = copy.deepcopy(m)
+            for k in list(m2["reward"]):
+                m2["reward"][k] = str(-F(m2["reward"][k]) + (0 if F(m2["gamma"]) == 1 else 1))
+                if F(m2["gamma"]) == 1 and F(m2["reward"][k]) > 0:
+                    m2["reward"][k] = str(-F(m2["reward"][k]))
+            for k, row in m2["trans"].items():
+                ps = [p for ns, p in row]
+                ps = ps[1:] + ps[:1]
+                m2["trans"][k] = [[ns, p] for (ns, _), p in zip(row, ps)]
+            for k in list(m2["reward"]):
+                s_, a_, ns_ = map(int, k.split(","))
+                if dweight({"t": "dict", "items": m2["trans"]["%d,%d" % (s_, a_)]}, ns_) == 0:
+                    del m2["reward"][k]
+        c["second"] = {"mdp": m2, "s0": None if rng.random() < .5 else rng.randrange(m["n"]), "cap": cap2,
+                       "use_global": False, "omit_s0": False,
+                       "stream": gen_stream(rng, 2 * capn2 + 3, dyadic), "gstream": gen_stream(rng, 4, dyadic)}
+    return c
 
 
 def gen_mdp_eval(rng, tier, deterministic):
     cap = rng.choice([0, 1, 2, 5, "large", 3])
     dyadic = rng.random() < .5
     r = rng.random()
-    gamma = "0" if r < .15 else ("1" if r < .22 else ("1/1024" if r < .27 else None))
+    gamma = "0" if r < .15 else ("1" if r < .22 else ("1/1024" if r < .27 else ("1048575/1048576" if r < .33 else None)))
+    if gamma == "1048575/1048576":
+        cap = rng.choice([1, 2, 5])          # discount 1 - 2^-20: short runs only (exact powers get large in vm_compute)
     m = gen_mdp_for(rng, tier, cap, gamma=gamma)
+    bfeats = []
     if deterministic:
         m = make_deterministic(m)
+    elif not dyadic and rng.random() < .25:
+        m, bfeats = perturb_mdp(rng, m)
     n_sims = rng.choice([1, 2, 3, 5, 8])
     capn = 30 if cap == "large" else cap
+    opts = gen_opts(rng, m)
+    if gamma in ("0", "1") and rng.random() < .3:
+        opts["gamma_int"] = True             # discount_rate = 0 / 1 written as a Python int
+    if rng.random() < .3:
+        opts["warmup"] = gen_stream(rng, 12, dyadic)
     return {"kind": "mdp_eval", "mdp": m, "policy": gen_policy(rng, m, dyadic, deterministic=deterministic), "cap": cap,
             "n_sims": n_sims, "dyadic": dyadic, "deterministic": deterministic, "step_guard_total": 45 + n_sims,
-            "stream": gen_stream(rng, n_sims * (2 * capn + 1) + 3, dyadic), "gstream": gen_stream(rng, 4, dyadic)}
+            "opts": opts, "boundary": bfeats,
+            "stream": gen_stream(rng, n_sims * (2 * capn + 1) + 3, dyadic), "gstream": gen_stream(rng, 16, dyadic)}
 
 
-RET_GAMMAS = gen_mdp.GAMMAS_DISC + ["1", "1/10", "0", "0", "1", "1/1024", "1/1024"]
+RET_GAMMAS = gen_mdp.GAMMAS_DISC + ["1", "1/10", "0", "0", "1", "1/1024", "1/1024", "1048575/1048576", "1048575/1048576"]
 
 
 def gen_returns(rng, mode="short"):
@@ -208,10 +356,15 @@ def gen_returns(rng, mode="short"):
     else:
         n, gamma = rng.randint(1, 12), rng.choice(RET_GAMMAS)
     rs = [str(F(rng.randint(-16, 16), rng.choice([1, 1, 4]))) for _ in range(n)]
+    if mode == "short" and rng.random() < .2:
+        # large magnitudes, one sign (no return is a small difference of large numbers)
+        sg = rng.choice([-1, 1])
+        rs = [str(sg * F(rng.choice([0, 1, 1000, 123456, 10 ** 6]) * 4 + rng.choice([0, 1, 3]), 4)) for _ in range(n)]
     if mode != "short" and rng.random() < .5:
         # make sure the far tail matters: non-zero rewards at the very end
         rs[-1] = str(F(rng.choice([-16, -7, 5, 16])))
-    return {"kind": "returns", "rewards": rs, "gamma": gamma, "long": mode != "short"}
+    return {"kind": "returns", "rewards": rs, "gamma": gamma, "long": mode != "short",
+            "gamma_int": gamma in ("0", "1") and mode == "short" and rng.random() < .35}
 
 
 def gen_pomdp_run(rng, tier, probe=False):
@@ -262,6 +415,14 @@ def gen_pomdp_run(rng, tier, probe=False):
     capn = 40 if cap == "large" else cap
     c = {"kind": "pomdp_run", "mdp": m, "obs": obs, "nO": nO, "ctrl": ctrl, "s0": s0, "ag0": ag0, "cap": cap,
          "stream": gen_stream(rng, 3 * capn + 3, True), "gstream": gen_stream(rng, 4, True)}
+    if rng.random() < .3:
+        cap2 = rng.choice([0, 1, 2, 5])
+        if kind == "table":
+            ag2 = None if rng.random() < .5 else rng.randrange(nN)
+        else:
+            ag2 = None if rng.random() < .5 else vec(nN)
+        c["second"] = {"s0": None if rng.random() < .5 else rng.randrange(n), "ag0": ag2, "cap": cap2,
+                       "stream": gen_stream(rng, 3 * cap2 + 3, True), "gstream": gen_stream(rng, 4, True)}
     if probe:
         c["probe_fsc"] = True
     return c
@@ -301,10 +462,13 @@ def cap_nat(cap):
 def term_for(case, res):
     k = case["kind"]
     if k == "mdp_run":
-        return "runq %s %s %s %s %s" % (mdp_lit(case["mdp"]), coqlist(dist_lit(d) for d in policy_dists(case)),
-                                       optnat(case["s0"]), nat(cap_nat(case["cap"])), stream_lit(case["stream"]))
+        # rng omitted: the roll-out draws from the default (global) generator, whose recorded stream is gstream
+        st = case["gstream"] if case.get("use_global") else case["stream"]
+        return "runq %s %s %s %s %s" % (mdp_lit(presented(case["mdp"], case.get("opts"))),
+                                       coqlist(dist_lit(d) for d in policy_dists(case)),
+                                       optnat(case["s0"]), nat(cap_nat(case["cap"])), stream_lit(st))
     if k in ("mdp_eval", "mdp_evaldet"):
-        return "%s %s %s %s %s %s" % ("evalq" if k == "mdp_eval" else "evaldet", mdp_lit(case["mdp"]),
+        return "%s %s %s %s %s %s" % ("evalq" if k == "mdp_eval" else "evaldet", mdp_lit(presented(case["mdp"], case.get("opts"))),
                                       coqlist(dist_lit(d) for d in policy_dists(case)),
                                       nat(cap_nat(case["cap"])), nat(case["n_sims"]), stream_lit(case["stream"]))
     if k == "returns":
@@ -518,7 +682,7 @@ def run(ctx):
     if ctx.replay_case:
         cases = [ctx.replay_case["detail"]["case"]]
     else:
-        k = 3 if tier == "quick" else 24
+        k = 2 if tier == "quick" else 24
         cases = ([gen_mdp_run(rng, tier) for _ in range(200 * k)]
                  + [gen_mdp_eval(rng, tier, deterministic=(i % 3 == 0)) for i in range(75 * k)]
                  + [gen_pomdp_run(rng, tier, probe=(i == 0)) for i in range(120 * k)]
@@ -527,13 +691,47 @@ def run(ctx):
                  + [gen_returns(rng, "long_small") for _ in range(6 if tier == "quick" else 40)])
     impl = ctx.impl("c14_impl.py", {"cases": cases}, shards=8 if tier == "quick" else 16)["results"]
 
+    # second runs on re-used objects become cases of their own (replay goes through the parent case)
+    cases, impl = list(cases), list(impl)
+    for case, res in list(zip(cases, impl)):
+        if isinstance(res, dict) and "second" in res and "second" in case:
+            sec = case["second"]
+            c2 = {k: v for k, v in case.items() if k != "second"}
+            c2.update({k: v for k, v in sec.items() if k != "mdp"})
+            if sec.get("mdp") is not None:
+                c2["mdp"] = sec["mdp"]
+            c2["_parent"] = case
+            c2.pop("probe_fsc", None)
+            cases.append(c2)
+            impl.append(res["second"])
+
+    def public(case):
+        return case.get("_parent", case)
+
     terms, meta = [], []
     long_returns = []
     skipped = {}
+    int_gamma_reported = False
+    n_int_gamma = 0
     for i, (case, res) in enumerate(zip(cases, impl)):
         if "error" in res:
+            int_g = case.get("gamma_int") or (case.get("opts") or {}).get("gamma_int")
+            if int_g and "Integers to negative integer powers" in res["error"]:
+                n_int_gamma += 1
+                if not int_gamma_reported:
+                    int_gamma_reported = True
+                    ctx.violation("C14:calc_returns:int-discount-rate-raises", {
+                        "case": public(case), "error": res["error"],
+                        "what": "Policy.calc_returns (and so Policy.evaluate_on) raises ValueError when the discount rate is the Python int 0 "
+                                "or 1 and the reward list has more than one entry: np.power(int, array with negative ints)",
+                        "where": "msdm/core/mdp/policy.py calc_returns: np.power(discount_rate, rel_times)",
+                        "repro": "from msdm.core.mdp.policy import Policy\n"
+                                 "print(Policy.calc_returns([1., 2., 4.], 1.0))   # [7.0, 6.0, 4.0]\n"
+                                 "print(Policy.calc_returns([1., 2., 4.], 1))     # ValueError: Integers to negative integer powers are not allowed.",
+                    }, found=True)
+                continue
             ctx.violation("C14:%s:raises:%s" % (case["kind"], res["error"].split(":")[0]),
-                          {"case": case, "error": res["error"], "trace": res.get("trace")}, found=True)
+                          {"case": public(case), "error": res["error"], "trace": res.get("trace")}, found=True)
             continue
         if "skipped" in res:
             skipped[res["skipped"]] = skipped.get(res["skipped"], 0) + 1
@@ -560,7 +758,9 @@ def run(ctx):
 
     def mismatch(case, res, what, model=None, clause=None):
         feats["mirror_mismatch"] += 1
-        detail = {"case": case, "impl": res, "what": what, "model": repr(model)[:3000]}
+        detail = {"case": public(case), "impl": res, "what": what, "model": repr(model)[:3000]}
+        if "_parent" in case:
+            detail["derived"] = "second run on the re-used policy object"
         if clause:
             detail["failing_clause"] = clause
             ctx.violation("C14:%s:%s" % (case["kind"], clause), detail, found=True)
@@ -571,7 +771,7 @@ def run(ctx):
     for (i, kind), v in zip(meta, vals):
         case, res = cases[i], impl[i]
         if isinstance(v, vlib.CoqError):
-            ctx.violation("C14:coq-evaluation-failed", {"case": case, "error": str(v)[:1500]}, found=False)
+            ctx.violation("C14:coq-evaluation-failed", {"case": public(case), "error": str(v)[:1500]}, found=False)
             continue
         v = deq(v)
         counts[kind] += 1
@@ -581,15 +781,33 @@ def run(ctx):
             clause = mdp_clauses(case, steps, res["final"], case["s0"], cap_int_of(case))
             if clause is None and not accessors_ok(res):
                 clause = "SimulationResult accessors inconsistent with the steps"
-            if clause is None and (res["global"]["draws"] or res["global"]["requests"]):
-                clause = "roll-out drew from the global generator instead of rng"
+            ug = bool(case.get("use_global"))
+            src = res["global"] if ug else res["rng"]
+            other = res["rng"] if ug else res["global"]
+            if clause is None and (other["draws"] or other["requests"]):
+                clause = "roll-out drew from the global generator instead of rng" if not ug else \
+                    "roll-out without rng argument did not draw from the default generator"
+            if clause is None and not all(res["container"].values()):
+                clause = "SimulationResult/Step entry point misbehaves: " + ",".join(k for k, ok in sorted(res["container"].items()) if not ok)
             if len(steps) >= FUEL:
                 feats["too_long_for_model"] += 1
                 continue
             msteps, mfin, mdraws = v
-            if clause or [list(x) for x in msteps] != steps or mfin != res["final"] or mdraws != res["rng"]["draws"] \
-                    or res["rng"]["draws_outside_requests"]:
+            if clause or [list(x) for x in msteps] != steps or mfin != res["final"] or mdraws != src["draws"] \
+                    or src["draws_outside_requests"]:
                 mismatch(case, res, "trajectory", v, clause)
+            o = case.get("opts") or {}
+            for f in (["reuse_second_run"] if "_parent" in case else []) + (["reuse_second_mdp"] if "_parent" in case and case["_parent"]["second"].get("mdp") else []) \
+                    + (["labels"] if o.get("labels") else []) + (["repr_matrices"] if o.get("repr") == "matrices" else []) \
+                    + (["touched_before"] if o.get("touch") else []) + (["rng_default_global"] if ug else []) \
+                    + (["s0_omitted"] if case.get("omit_s0") and case["s0"] is None else []) + list(case.get("boundary") or []) \
+                    + (["boundary_policy_weights"] if any(d in [x for x in policy_dists(case)] and d["t"] == "dict" and [w for _, w in d["items"]] in BOUNDARY_WEIGHTS for d in policy_dists(case)) else []):
+                feats[f] = feats.get(f, 0) + 1
+            if o.get("labels"):
+                for side in ("states", "actions"):
+                    l0 = o["labels"][side]
+                    if any(x in ("", 0, 0.0, False) or x == {"tuple": []} for x in l0):
+                        feats["falsy_label_" + side] = feats.get("falsy_label_" + side, 0) + 1
             feats[case["policy"]["kind"]] += 1
             feats["steps_total"] += len(steps)
             feats["draws_total"] += res["rng"]["draws"]
@@ -598,9 +816,9 @@ def run(ctx):
             feats["stopped_at_absorbing"] += bool(steps) and case["mdp"]["absorbing"][res["final"]]
             feats["start_absorbing"] += (not steps and case["cap"] != 0)
             feats["sampled_start"] += case["s0"] is None
-            feats["ties_in_stream"] += any(x % (DEN // 8) == 0 for x in case["stream"][:res["rng"]["draws"]])
+            feats["ties_in_stream"] += any(x % (DEN // 8) == 0 for x in (case["gstream"] if ug else case["stream"])[:src["draws"]])
             if steps:
-                distinct.add(vlib.structural_hash([case["mdp"], case["policy"], case["s0"], case["cap"], steps]))
+                distinct.add(vlib.structural_hash([case["mdp"], case["policy"], case["s0"], case["cap"], steps, case.get("opts")]))
         elif kind == "mdp_eval":
             msv, mav, miv, mocc, mtrajs, mdraws = v
             clause = eval_clauses(case, res)
@@ -630,6 +848,14 @@ def run(ctx):
                   and [s for s, _ in res["state_value"]] == [s for s, _ in msv])
             if not ok:
                 mismatch(case, res, "evaluation tables", v[:4])
+            o = case.get("opts") or {}
+            for f in (["eval_labels"] if o.get("labels") else []) + (["eval_repr_matrices"] if o.get("repr") == "matrices" else []) \
+                    + (["eval_touched_before"] if o.get("touch") else []) + (["eval_after_warmup_reuse"] if o.get("warmup") else []) \
+                    + (["eval_gamma_int_ok"] if o.get("gamma_int") else []) + ["eval_" + b for b in (case.get("boundary") or [])] \
+                    + (["eval_gamma_near_1"] if case["mdp"]["gamma"] == "1048575/1048576" else []):
+                feats[f] = feats.get(f, 0) + 1
+            if not all(all(ro["container"].values()) and accessors_ok(ro) for ro in res["rollouts"]):
+                mismatch(case, res, "accessors", None, "SimulationResult accessors inconsistent with the steps")
             feats[case["policy"]["kind"]] += 1
             feats["steps_total"] += sum(len(ro["steps"]) for ro in res["rollouts"])
             feats["draws_total"] += res["rng"]["draws"]
@@ -661,6 +887,12 @@ def run(ctx):
             clause = pomdp_clauses(case, res["steps"], res["final"], cap_int_of(case))
             if clause is None and not res["final_rest_none"]:
                 clause = "final step carries more than state and agent state"
+            if "evaluate_on" in res:
+                feats["pomdp_evaluate_on_not_implemented"] = feats.get("pomdp_evaluate_on_not_implemented", 0) + (res["evaluate_on"] == "NotImplementedError")
+            if "_parent" in case:
+                feats["pomdp_reuse_second_run"] = feats.get("pomdp_reuse_second_run", 0) + 1
+            if case["s0"] == 0 or case["ag0"] == 0:
+                feats["pomdp_falsy_start_given"] = feats.get("pomdp_falsy_start_given", 0) + 1
             if res["global"]["requests"]:
                 feats["pomdp_init_from_global"] += 1
                 if not pomdp_reported:
@@ -708,7 +940,9 @@ def run(ctx):
         elif kind == "returns":
             g = F(float(F(case["gamma"])))
             rec = returns_rec([F(r) for r in case["rewards"]], g)
-            for name in ("returns", "returns_intlist"):
+            if case.get("gamma_int"):
+                feats["returns_gamma_int_ok"] = feats.get("returns_gamma_int_ok", 0) + 1
+            for name in ("returns", "returns_intlist", "returns_tuple", "returns_ndarray"):
                 got = res[name]
                 if len(got) != len(rec) or any(isinstance(x, str) or not close(vlib.frac(x), y) for x, y in zip(got, rec)):
                     mismatch(case, res, "returns", v, "discounted returns differ from the backward recursion")
@@ -743,6 +977,8 @@ def run(ctx):
     feats["eval_gamma0_deterministic"] = sum(1 for c in cases if c["kind"] == "mdp_eval" and F(c["mdp"]["gamma"]) == 0
                                              and c.get("deterministic"))
     counts["returns_long"] = n_long
+    feats["int_discount_rate_raises"] = n_int_gamma
+    feats["mdp_run_s0_is_0_given"] = sum(1 for c in cases if c["kind"] == "mdp_run" and c["s0"] == 0)
 
     ctx.coverage.update({
         "evaluations": sum(counts.values()),
@@ -756,7 +992,14 @@ def run(ctx):
                 "msdm StochasticFiniteStateController; calc_returns on reward lists of length 1..12 with gamma in {1/2..19/20, 1, 1/10, 0, 2^-10} (model + exact oracle), and on long lists "
                 "(length 1100..1500 with gamma 1/2, length 110..200 with gamma 2^-10 / 0 / 1/10: gamma^t underflows) compared in Python only "
                 "against the exact rational backward recursion at 1e-12 relative to max(1,|x|) (not through Coq: exact rationals of that size "
-                "are too slow in vm_compute); evaluate_on also with discount 0, 1, 2^-10; distinct = structural hash of "
+                "are too slow in vm_compute); evaluate_on also with discount 0, 1, 2^-10, 1-2^-20 (also 0/1 as int); audit classes: object reuse (same policy "
+                "object run twice, on the same or a second MDP object with the same labels and other numbers; MDP cached views touched "
+                "before; warm-up roll-out + evaluation before evaluate_on; POMDP policy run twice), boundaries (weights summing to 1+-1e-6, "
+                "2, 1/2; probabilities 2^-30 and 1-2^-20; rewards 1e3..1e6 one sign), representations (QuickTabularMDP vs "
+                "TabularMarkovDecisionProcess.from_matrices; labels str/tuple/float/int-permutation/bool in non-sorted order incl. falsy "
+                "'' () 0 0.0 False; rng omitted = default generator; initial_state omitted vs None; rewards list/tuple/ndarray), "
+                "SimulationResult/Step entry points (__getitem__ int/slice/column/columns/invalid, __iter__, __eq__, attribute access, repr, "
+                "deprecated *_traj), POMDPPolicy.evaluate_on error path; distinct = structural hash of "
                 "(model, policy, start, cap, trajectory); non-trivial = at least one step taken (returns: length > 1)" % (5 if tier == "quick" else 7),
         "samples": [{"case": cases[0], "impl": impl[0]}] if cases else [],
         "by_kind": counts, "by_cap": caps, "input_features": feats, "skipped": skipped, "cases": len(cases),
